@@ -78,7 +78,7 @@ fn case_strategy() -> BoxedStrategy<C12Case> {
         1 => (1u8..30).prop_map(CEdit::Kill),
     ];
     let knob = || prop::option::weighted(0.3, (0u16..u16::MAX).prop_map(|i| SIZE_KNOBS[pick(i, SIZE_KNOBS.len())]));
-    let tr = prop::option::weighted(0.25, prop_oneof![Just(TrOp::Cat), Just(TrOp::Upper), Just(TrOp::Head(5000)), Just(TrOp::Expand), Just(TrOp::Header)].prop_map(|op| Tr { op, io: TrIo::Pipe }));
+    let tr = prop::option::weighted(0.3, prop_oneof![Just(TrOp::Cat), Just(TrOp::Upper), Just(TrOp::Head(5000)), Just(TrOp::Head(17000)), Just(TrOp::Expand), Just(TrOp::Header)].prop_map(|op| Tr { op, io: TrIo::Pipe }));
     let step = (proptest::collection::vec(edit, 0..4), prop_oneof![3 => Just(0u8), 1 => 0u8..7], tr, knob(), knob(), prop_oneof![2 => Just(1u8), 1 => Just(2u8), 1 => Just(0u8)])
         .prop_map(|(edits, hash_fn, transform, max_prefix, max_suffix, disk)| Step { edits, hash_fn, transform, max_prefix, max_suffix, disk });
     (proptest::collection::vec(content(), 3..8), proptest::collection::vec(step, 1..=6), prop::bool::weighted(0.5))
@@ -91,6 +91,20 @@ fn case_strategy() -> BoxedStrategy<C12Case> {
                     steps[i].max_prefix = steps[0].max_prefix;
                     steps[i].max_suffix = steps[0].max_suffix;
                     steps[i].disk = steps[0].disk;
+                } else if i % 2 == 0 {
+                    // the same transform program with other arguments (head -c 5000 / head -c 17000,
+                    // fcv-tr expand / fcv-tr header), everything else unchanged
+                    let sibling = match steps[0].transform.as_ref().map(|t| &t.op) {
+                        Some(TrOp::Head(5000)) => Some(TrOp::Head(17000)),
+                        Some(TrOp::Head(_)) => Some(TrOp::Head(5000)),
+                        Some(TrOp::Expand) => Some(TrOp::Header),
+                        Some(TrOp::Header) => Some(TrOp::Expand),
+                        _ => None,
+                    };
+                    if let Some(op) = sibling {
+                        steps[i].hash_fn = steps[0].hash_fn;
+                        steps[i].transform = Some(Tr { op, io: TrIo::Pipe });
+                    }
                 }
             }
             C12Case { files, steps, ext4 }
@@ -366,7 +380,7 @@ pub fn check(tier: Tier) -> i32 {
     cleanup_process_scratch();
     ctx.finish(
         "exploration",
-        "proptest-generated histories of 1-6 steps over 3-7 files of 5-140 KB that share long prefixes and suffixes (two content classes, single-byte differences at stage-boundary offsets): each step applies 0-3 edits (create, in-place rewrite of the same length with a newer or with an older mtime, make identical to another file, append/truncate with or without keeping the mtime, rename, delete+recreate under the same name - on ext4 the inode is usually reused, counted -, hard link, SIGKILL of a running `group --cache` after 1-29 ms) and then runs `group` uncached, cached (cold for this step) and cached again (warm), all with the same options; options (hash fn, transform, max-prefix/suffix, pinned device) change on some steps. Every content change gets a fresh mtime (next value of a logical clock with 1 ms steps, or for the 'older' rewrites a fresh value 1 ms below every earlier one): the mtime always changes, which is the premise of the property. Oracle (model = the uncached tool): report bodies incl. hashes and statistics must be byte-identical. Non-trivial = a same-length in-place rewrite or an inode-reusing recreate after a cached run, followed by a run with the same hash function.",
+        "proptest-generated histories of 1-6 steps over 3-7 files of 5-140 KB that share long prefixes and suffixes (two content classes, single-byte differences at stage-boundary offsets): each step applies 0-3 edits (create, in-place rewrite of the same length with a newer or with an older mtime, make identical to another file, append/truncate with or without keeping the mtime, rename, delete+recreate under the same name - on ext4 the inode is usually reused, counted -, hard link, SIGKILL of a running `group --cache` after 1-29 ms) and then runs `group` uncached, cached (cold for this step) and cached again (warm), all with the same options; options (hash fn, transform - also the same program with other arguments -, max-prefix/suffix, pinned device) change on some steps. Every content change gets a fresh mtime (next value of a logical clock with 1 ms steps, or for the 'older' rewrites a fresh value 1 ms below every earlier one): the mtime always changes, which is the premise of the property. Oracle (model = the uncached tool): report bodies incl. hashes and statistics must be byte-identical. Non-trivial = a same-length in-place rewrite or an inode-reusing recreate after a cached run, followed by a run with the same hash function.",
         &["mtimes are set by the harness with millisecond steps", "XDG_CACHE_HOME is private to the history"],
     )
 }
